@@ -751,7 +751,8 @@ pub fn run_scenario(spec: &Value) -> Vec<Value> {
             // random drip-feed: small feeds, small frees, near-full output.
             let steps = spec["steps"].as_u64().unwrap_or(200) as usize;
             // style 3 = back-pressure: large feeds, tiny drains, so that the
-            // output stream is full most of the time.
+            // output stream is full most of the time; style 4 = back-pressure
+            // with medium drains.
             let style = spec["style"].as_u64().map(|x| x as usize).unwrap_or_else(|| rng.below(4));
             for _ in 0..steps {
                 let r = rng.below(10);
@@ -760,7 +761,7 @@ pub fn run_scenario(spec: &Value) -> Vec<Value> {
                     let k = match style {
                         0 => 1,
                         1 => 1 + rng.below(3),
-                        3 => 1 << 20,
+                        3 | 4 => 1 << 20,
                         _ => 1 + rng.below(9),
                     };
                     do_env(&mut rig, &json!({"op": "feed", "i": i + 1, "k": k}), &mut log);
@@ -769,6 +770,9 @@ pub fn run_scenario(spec: &Value) -> Vec<Value> {
                     let k = match style {
                         0 => 1,
                         2 | 3 => rng.below(3),
+                        // style 4: medium drains under back-pressure, so the free
+                        // space is small, varying and rarely aligned to anything
+                        4 => 1 + rng.below(13),
                         _ => 1 + rng.below(6),
                     };
                     do_env(&mut rig, &json!({"op": "drain", "j": j + 1, "k": k}), &mut log);
